@@ -439,7 +439,9 @@ func c16Scens(tier string) []e1Scen {
 					}
 				}
 			}
-			for _, q := range []string{"", "a=1&b=2"} {
+			// the query string must appear verbatim on every URI: keys out of order, a key without value, an escape that
+			// re-encoding would change, a pair a query parser rejects
+			for _, q := range []string{"", "a=1&b=2", "token=abc&id=7", "session", "sig=a%2fb&z=1", "user=x;expires=1234"} {
 				if tier != "thorough" && q != "" && len(tl) > 2 {
 					continue
 				}
